@@ -772,7 +772,7 @@ fn env_step() {
 fn tick(kind: u8, dir: u8, slot: u8) -> Option<i32> {
     let st = k();
     // crash point: the state between the previous call and this one is what a crash leaves
-    assert!(tree_valid(), "KV-C02: every key-named file is a complete read-only value at every call boundary");
+    assert!(tree_valid(), "KV-C01+C02: every key-named file is a complete read-only value at every call boundary");
     env_step();
     trace(kind, dir, slot);
     st.calls += 1;
@@ -782,6 +782,14 @@ fn tick(kind: u8, dir: u8, slot: u8) -> Option<i32> {
     }
     if st.calls == st.fail_at && !st.failed {
         st.failed = true;
+        if st.fail_errno == ESTALE && dir != NONE && slot != NONE && (dir as usize) < ND && (slot as usize) < NS {
+            // a stale handle means the object is gone on the server: the name no longer resolves
+            let cur = st.dir[dir as usize].slot[slot as usize];
+            if cur != NONE && kind != C_RENAME && kind != C_LINK {
+                st.ino[cur as usize].nlink -= 1;
+                st.dir[dir as usize].slot[slot as usize] = NONE;
+            }
+        }
         dump(T_FAULT, 0, (st.calls as i64) | ((kind as i64) << 16) | ((st.kind_calls[kind as usize] as i64) << 24));
         dump(T_FAULT, 1, st.fail_errno as i64);
         return Some(st.fail_errno);
@@ -977,7 +985,10 @@ pub fn s_set_permissions<P: AsRef<Path>>(path: P, perm: Permissions) -> io::Resu
     }
     guard_mutation(loc, i, "chmod");
     let st = k();
-    assert!(!st.ino[i as usize].published, "KV-C03: a published file is never re-moded");
+    // (a chmod that leaves the permission bits as they are - the retry path re-running
+    // set_read_only on an already read-only file - is not a re-moding)
+    assert!(!st.ino[i as usize].published || (perm.mode() & 0o777) == (st.ino[i as usize].mode & 0o777),
+            "KV-C02+C03: a published file is never re-moded");
     st.ino[i as usize].mode = perm.mode() & 0o7777;
     Ok(())
 }
@@ -998,10 +1009,10 @@ fn guard_mutation(loc: Loc, ino: u8, what: &'static str) {
 fn check_publication(i: u8, d: u8, s: u8) {
     let st = k();
     let n = st.ino[i as usize];
-    assert!(!n.is_dir, "KV-C01: only regular files are published");
-    assert!(n.complete, "KV-C01: only completely written values are published");
-    assert!(n.key_tag == s, "KV-C01: a value is only published under the key it was written for");
-    assert!((n.mode & 0o222) == 0, "KV-C03: files are made read-only before they become visible");
+    assert!(!n.is_dir, "KV-C01+C02: only regular files are published");
+    assert!(n.complete, "KV-C01+C02: only completely written values are published");
+    assert!(n.key_tag == s, "KV-C01+C02+C11: a value is only published under the key it was written for");
+    assert!((n.mode & 0o222) == 0, "KV-C02+C03+C19: files are made read-only before they become visible");
     if st.auto_sync {
         assert!(!n.dirty, "KV-C03: contents are flushed after the last write and before publication");
         assert!(!n.sync_failed, "KV-C03: a failed flush is never followed by publication");
@@ -1180,7 +1191,7 @@ fn create_or_truncate(loc: Loc) -> io::Result<u8> {
     let cur = st.dir[loc.dir as usize].slot[loc.slot as usize];
     guard_mutation(loc, cur, "create");
     if cur != NONE {
-        assert!(!st.ino[cur as usize].published, "KV-C01: nobody writes a published file in place");
+        assert!(!st.ino[cur as usize].published, "KV-C01+C03: nobody writes a published file in place");
         st.ino[cur as usize].content = 0;
         st.ino[cur as usize].complete = false;
         st.ino[cur as usize].dirty = true;
@@ -1239,7 +1250,7 @@ pub fn s_file_write(f: &mut File, buf: &[u8]) -> io::Result<usize> {
     let st = k();
     let i = st.fd[fi].ino as usize;
     assert!(st.fd[fi].writable, "KV-C19: cached data is only ever opened read-only");
-    assert!(!st.ino[i].published, "KV-C01: nobody writes a published file in place");
+    assert!(!st.ino[i].published, "KV-C01+C03: nobody writes a published file in place");
     st.ino[i].dirty = true;
     st.ino[i].complete = false; // the library cannot know when a value is complete
     st.fd[fi].off = 1;
@@ -1437,7 +1448,8 @@ pub fn s_file_set_permissions(f: &File, perm: Permissions) -> io::Result<()> {
     }
     let st = k();
     let i = st.fd[fi].ino;
-    assert!(!st.ino[i as usize].published, "KV-C03: a published file is never re-moded");
+    assert!(!st.ino[i as usize].published || (perm.mode() & 0o777) == (st.ino[i as usize].mode & 0o777),
+            "KV-C02+C03: a published file is never re-moded");
     assert!(!st.ino[i as usize].foreign, "KV-C17: application data next to the cache is never modified or removed");
     st.ino[i as usize].mode = perm.mode() & 0o7777;
     Ok(())
@@ -1493,6 +1505,16 @@ fn close_index(fi: usize) {
     }
 }
 
+/// Called from harness/ffi.c's `close` (Kani cannot stub foreign functions; with -Z c-ffi the C
+/// definition is linked instead).
+#[no_mangle]
+pub extern "C" fn kv_close_hook(fd: i32) -> i32 {
+    if fd >= 100 && fd < 100 + NFD as i32 {
+        close_index((fd - 100) as usize);
+    }
+    0
+}
+
 pub unsafe fn s_libc_close(fd: i32) -> i32 {
     if fd >= 100 && fd < 100 + NFD as i32 {
         close_index((fd - 100) as usize);
@@ -1513,7 +1535,7 @@ pub fn s_io_copy<R: ?Sized + io::Read, W: ?Sized + io::Write>(reader: &mut R, wr
     let src = st.ino[st.fd[ri].ino as usize];
     let dsti = st.fd[wi].ino as usize;
     assert!(st.fd[wi].writable, "KV-C19: cached data is only ever opened read-only");
-    assert!(!st.ino[dsti].published, "KV-C01: nobody writes a published file in place");
+    assert!(!st.ino[dsti].published, "KV-C01+C03: nobody writes a published file in place");
     assert!(st.fd[ri].off == 0, "KV-C19: a copy starts from the beginning of the source");
     st.ino[dsti].content = src.content;
     st.ino[dsti].key_tag = src.key_tag;
@@ -1737,7 +1759,11 @@ pub fn s_regenerate(c: &std::cell::RefCell<u64>) -> u64 {
 }
 
 // ---- harness-side helpers ---------------------------------------------------------------------
+pub static mut KEEP_HOOK: Option<extern "C" fn(i32) -> i32> = None;
+
 pub fn reset() {
+    // reify the hook so that Kani code-generates it (it is only called from harness/ffi.c)
+    unsafe { KEEP_HOOK = Some(kv_close_hook) };
     let st = k();
     let mut i = 0;
     while i < NI {
@@ -1868,7 +1894,7 @@ pub fn write_value(f: &mut File, content: u8, key: u8, complete: bool) {
     let st = k();
     let i = st.fd[fi].ino as usize;
     assert!(st.fd[fi].writable, "KV-C19: cached data is only ever opened read-only");
-    assert!(!st.ino[i].published, "KV-C01: nobody writes a published file in place");
+    assert!(!st.ino[i].published, "KV-C01+C03: nobody writes a published file in place");
     st.ino[i].content = content;
     st.ino[i].key_tag = key;
     st.ino[i].complete = complete;
